@@ -30,13 +30,13 @@ RULE = (
 )
 TOLERANCES = {"additivity_rel": 1e-10, "readback_rel": 1e-10, "unchanged_rel": 1e-12, "massfrac_sum_abs": 1e-10, "inverse_rel": 1e-12, "spec_volume_rel": 1e-9,
               "trace_abs": 1e-40}
-FLOORS = {"quick": {"setMassFracs.named-take-everything": 15, "block.with-negative-volume-child": 6, "block.without-derived-shape": 8, "questions-before-audit": 800, "question.getArea(cold=True)": 120, "ledger.block": 3000, "ledger.assembly": 300, "ledger.core": 40, "ledger.component": 2500, "edit.block-symmetry-factor-3": 18,
+FLOORS = {"quick": {"one-vector-for-two-components": 150, "caller-reuses-its-vector": 250, "setMassFracs.named-take-everything": 15, "block.with-negative-volume-child": 6, "block.without-derived-shape": 8, "questions-before-audit": 800, "question.getArea(cold=True)": 120, "ledger.block": 3000, "ledger.assembly": 300, "ledger.core": 40, "ledger.component": 2500, "edit.block-symmetry-factor-3": 18,
                     "edit.block-symmetry-factor-2": 12, "ledger.component-in-block-of-factor-3": 18, "ledger.component-in-block-of-factor-2": 12,
                     "edit.cartesian-block-symmetry-factor-4": 6, "edit.cartesian-block-symmetry-factor-2": 6, "symmetry-factor.3": 45, "symmetry-factor.2": 50,
                     "symmetry-factor.cartesian-4": 12, "symmetry-factor.cartesian-2": 12, "volume-from-spec": 900, "edge-assemblies.changed": 3,
                     "readback": 2000, "readback.mass-vector": 250, "others-unchanged": 1000, "absent-nuclide.composite": 120, "absent-nuclide.component": 70,
                     "massfrac": 300, "getMasses": 6000, "getMassFrac": 3000, "densityTools": 300, "selection": 1000},
-          "thorough": {"setMassFracs.named-take-everything": 400, "block.with-negative-volume-child": 200, "block.without-derived-shape": 130, "questions-before-audit": 12000, "question.getArea(cold=True)": 2000, "ledger.block": 60000, "ledger.assembly": 6000, "ledger.core": 800, "ledger.component": 30000, "edit.block-symmetry-factor-3": 350,
+          "thorough": {"one-vector-for-two-components": 2500, "caller-reuses-its-vector": 5000, "setMassFracs.named-take-everything": 400, "block.with-negative-volume-child": 200, "block.without-derived-shape": 130, "questions-before-audit": 12000, "question.getArea(cold=True)": 2000, "ledger.block": 60000, "ledger.assembly": 6000, "ledger.core": 800, "ledger.component": 30000, "edit.block-symmetry-factor-3": 350,
                        "edit.block-symmetry-factor-2": 60, "ledger.component-in-block-of-factor-3": 350, "ledger.component-in-block-of-factor-2": 60,
                        "edit.cartesian-block-symmetry-factor-4": 60, "edit.cartesian-block-symmetry-factor-2": 60, "symmetry-factor.3": 800, "symmetry-factor.2": 250,
                        "symmetry-factor.cartesian-4": 120, "symmetry-factor.cartesian-2": 120, "volume-from-spec": 10000, "edge-assemblies.changed": 15,
@@ -434,7 +434,9 @@ def do_edit(rec, rng, obj, level, w):
         elif op == "updateNumberDensities":
             sel = rng.sample(present, min(len(present), rng.randint(1, 3)))
             vals = {n: before[n] * rng.uniform(.2, 2) for n in sel}
-            obj.updateNumberDensities(dict(vals))
+            given = dict(vals)
+            obj.updateNumberDensities(given)
+            caller_reuses_its_vector(rec, rng, given)
             after = snapshot_nd(obj)
             rec.hit("readback")
             for n, v in vals.items():
@@ -445,7 +447,9 @@ def do_edit(rec, rng, obj, level, w):
         elif op == "setNumberDensities":
             sel = rng.sample(present, min(len(present), rng.randint(1, 4)))
             vals = {n: before[n] * rng.uniform(.2, 2) for n in sel}
-            obj.setNumberDensities(dict(vals))
+            given = dict(vals)
+            obj.setNumberDensities(given)
+            caller_reuses_its_vector(rec, rng, given)
             after = snapshot_nd(obj)
             rec.hit("readback")
             for n in before:
@@ -694,6 +698,60 @@ def absent_edit(rec, rng, obj, level, w, before):
     return "absent:" + op
 
 
+def one_vector_for_two_components(rec, rng, block, w):
+    """One composition vector (one dict object) is given to two components - inner and outer zone of the same material - and one of
+    them is edited afterwards: the other one, and the caller's vector, keep their numbers."""
+    from armi.reactor.components import DerivedShape
+
+    cs_ = [c for c in block if c.p.numberDensities and not isinstance(c, DerivedShape)]
+    if len(cs_) < 2:
+        return "shared-vector:skipped"
+    c1, c2 = rng.sample(cs_, 2)
+    vec = {n: max(v, 1e-7) * rng.uniform(.5, 2) for n, v in c1.p.numberDensities.items()}
+    kept = dict(vec)
+    try:
+        c1.setNumberDensities(vec)
+        c2.setNumberDensities(vec)
+        nuc = rng.choice(sorted(vec))
+        how = rng.choice(["setNumberDensity", "addMass", "updateNumberDensities", "setMass", "changeNDensByFactor"])
+        if how == "setNumberDensity":
+            c1.setNumberDensity(nuc, vec[nuc] * 3.0)
+        elif how == "addMass":
+            c1.addMass(nuc, max(c1.getMass(nuc), 1e-6) * .5)
+        elif how == "setMass":
+            c1.setMass(nuc, max(c1.getMass(nuc), 1e-6) * 2.0)
+        elif how == "updateNumberDensities":
+            c1.updateNumberDensities({nuc: vec[nuc] * .25})
+        else:
+            c1.changeNDensByFactor(1.7)
+    except Exception as e:
+        rec.crash("shared-vector", e, w)
+        return "shared-vector:crash"
+    rec.hit("one-vector-for-two-components")
+    got2 = dict(c2.p.numberDensities)
+    if any(not rc(got2.get(n, 0.0), v, 1e-12, 1e-300) for n, v in kept.items()) or set(got2) != set(kept):
+        rec.violation("aliasing/edit-of-one-component-changed-another-given-the-same-vector/" + how, "%s on %s changed %s (both were given one vector): %s became %s" % (
+            how, c1.name, c2.name, {nuc: kept[nuc]}, {nuc: got2.get(nuc)}), dict(w, components=[c1.name, c2.name]))
+    if vec != kept:
+        rec.violation("aliasing/setter-kept-the-callers-vector/" + how, "%s on %s rewrote the caller's own vector" % (how, c1.name), dict(w, components=[c1.name, c2.name]))
+    return "shared-vector:" + how
+
+
+def caller_reuses_its_vector(rec, rng, given):
+    """The dictionary handed to a setter stays the caller's: it goes on being edited (scaled, extended, emptied) for the next object.
+    What the model holds is the numbers it was given at the time of the call."""
+    rec.hit("caller-reuses-its-vector")
+    how = rng.choice(["scale", "extend", "clear", "scale"])
+    if how == "scale":
+        for k in list(given):
+            given[k] *= 7.0
+    elif how == "extend":
+        given["XE135"] = 1.0
+        given["SM149"] = 2.0
+    else:
+        given.clear()
+
+
 def read_only_questions(rec, rng, obj):
     """Questions that change nothing - cold dimensions, areas and volumes, one nuclide's density - asked between an edit and the
     audit: an answer remembered for one form of a question must never be served for another (cold for hot, one nuclide for all)."""
@@ -847,6 +905,8 @@ def do_blocks(spec, rec, rng0):
             else:
                 op = "b:" + do_edit(rec, rng, b, "block", dict(w, history=hist))
             hist.append(op)
+            if rng.random() < .12:
+                hist.append(one_vector_for_two_components(rec, rng, b, dict(w, history=hist)))
             if rng.random() < .35:
                 hist.append("ask:" + read_only_questions(rec, rng, b))
             check_ledger(rec, b, "block", dict(w, history=hist), rng=rng)
